@@ -24,7 +24,9 @@
    design gives no per-session progress (DESIGN §7.6):
         WideRequester   A has more heads than SampleMax: the sample never reaches below them;
         UnknownSample   the sample is full and B can locate none of its addresses (A diverged by
-                        >= SampleMax commands of its own): B re-sends its oldest SegMax segments.
+                        >= SampleMax commands of its own): B re-sends its oldest SegMax segments;
+        UncoveredDupFull a full response of commands A holds but no located sample address covers
+                        (one-response sessions: found with RespMax = 1 by MC_SyncAbs_impl1).
    `OneShot` models the transports that use a fresh responder per request (one response per
    session: aranya-tcp-syncer, the DSL `sync`) instead of polling until SyncEnd.             *)
 EXTENDS Naturals, Sequences, FiniteSets, TLC, Json, SyncDag
@@ -233,7 +235,14 @@ Monotone == [][haveA \subseteq haveA' /\ haveB' = haveB]_vars
 Terminates == idx <= Cardinality(haveB)
 
 (* C16 *)
-Exempted == Exempt /\ (flags.wide \/ flags.unknown)
+(* third class (found by the conformance run, Trace_Sync key `>=100-uncovered-duplicates`): a full
+   response (or a full needed-segment buffer) of commands A holds but that no sample address B can
+   locate covers — sampling by segment head cannot tell B about them *)
+CoveredBySample == LET located == SeqSet(sample) \cap haveB IN located \cup UNION {anc[l] : l \in located}
+UncoveredDupFull == /\ Len(got) >= RespMax
+                    /\ SeqSet(got) \subseteq haveA
+                    /\ SeqSet(got) \cap CoveredBySample = {}
+Exempted == Exempt /\ (flags.wide \/ flags.unknown \/ UncoveredDupFull)
 Progress == phase = "ended" => (ProgressOK(haveA, haveB, SeqSet(got)) \/ Exempted)
 Converges == <>[](haveB \subseteq haveA)
 (* with Progress every session closes the gap, so MaxSessions >= MaxNodes - 1 sessions suffice *)
